@@ -231,7 +231,8 @@ def stream_seek(it, st, off, whence=0):
             return pos
     if smt.is_z3(pos):
         if not p.must(pos >= 0):
-            raise Unsupported('seek to possibly negative position')
+            if p.branch(pos < 0):
+                it.raise_exc('ValueError', 'negative seek position')
     elif pos < 0:
         it.raise_exc('ValueError', 'negative seek position')
     # special case: step back over the tail of `before`
